@@ -3,7 +3,8 @@
 // (each of 3 adaptive iterations) and every assignment of NaN / +inf / -inf (subsets of size <= 4;
 // uniform kinds above), coming from the integrand value, from the value handed to a distribution,
 // or from the multi-channel weight, the run must equal - counters aside - the run in which the same
-// points returned zero.
+// points returned zero; so must the variance-weighted combination of every prefix of the results (what
+// the built-in callback reports and bases its stop decision on).
 #include "common.hpp"
 #include "engines.hpp"
 #include "fields.hpp"
@@ -110,7 +111,7 @@ static std::string text_of(C const& c) { std::ostringstream o; c.serialize(o); r
 
 // runs one integrator over 3 iterations of 6 calls; returns canonical description, per-iteration
 // non_zero_calls and the serialised text
-struct run_out { std::string desc; std::vector<sz> nz; std::string text; };
+struct run_out { std::string desc; std::vector<sz> nz; std::string text; std::string cumulative; };
 
 template <typename T>
 static run_out run(int kind, bool dist)
@@ -128,6 +129,16 @@ static run_out run(int kind, bool dist)
         out.desc = vf::describe(chk, mask);
         for (auto const& res : chk.results()) out.nz.push_back(res.non_zero_calls());
         out.text = text_of<T>(chk);
+        // what the built-in callback reports and bases its stop decision on: the variance-weighted
+        // combination of the results so far (every prefix), integrated result and every bin
+        std::ostringstream cum;
+        for (sz k = 1; k <= chk.results().size(); ++k)
+        {
+            auto const acc = hep::accumulate<hep::weighted_with_variance>(chk.results().begin(), chk.results().begin() + k);
+            cum << "combination of the first " << k << " results:\n";
+            vf::describe_plain<T>(cum, acc, mask);
+        }
+        out.cumulative = cum.str();
     };
     if (kind == 0)
     {
@@ -138,7 +149,7 @@ static run_out run(int kind, bool dist)
     }
     else if (kind == 1)
     {
-        auto chk = hep::make_vegas_chkpt<T, vf::script_engine>(4, T(1.5), gen);
+        auto chk = hep::make_vegas_chkpt<T, vf::script_engine>(4, T(1.25), gen);
         chk = dist ? hep::vegas(hep::make_integrand<T>(fn<T>(), 2, dparams, dparams2), calls, chk, vf::never_stop())
                    : hep::vegas(hep::make_integrand<T>(fn<T>(), 2), calls, chk, vf::never_stop());
         finish(chk);
@@ -155,6 +166,12 @@ static run_out run(int kind, bool dist)
         finish(chk);
     }
     return out;
+}
+
+static bool non_finite_text(std::string s)
+{
+    for (auto& ch : s) ch = std::tolower(ch);
+    return s.find("nan") != std::string::npos || s.find("inf") != std::string::npos;
 }
 
 template <typename T>
@@ -230,10 +247,15 @@ static void enumerate(report& r)
                                 + ", the zeroed run has " + std::to_string(pair.nz[k]) + " and " + std::to_string(k == iter ? expect_extra : 0) + " points were non-finite");
                     }
                 }
-                std::string lower = got.text;
+                std::string const dc = vf::first_difference(got.cumulative, pair.cumulative);
+                if (!dc.empty())
+                    r.violate("contaminated/combined-result", id, what + ": the variance-weighted combination of the results (what the built-in callback reports and "
+                        "decides on) differs from that of the run in which the same points returned zero: " + dc);
+                std::string lower = got.text + (non_finite_text(pair.cumulative) ? std::string() : got.cumulative);
                 for (auto& ch : lower) ch = std::tolower(ch);
                 if (lower.find("nan") != std::string::npos || lower.find("inf") != std::string::npos)
-                    r.violate("non-finite-number-reported", id, what + ": the checkpoint text contains a non-finite number");
+                    r.violate("non-finite-number-reported", id, what + (non_finite_text(got.text) ? ": the checkpoint text contains a non-finite number"
+                        : ": the variance-weighted combination of the results contains a non-finite number (that of the zeroed run does not)"));
                 r.distinct(vf::hash_str(id));
                 r.outcome("descriptions", got.desc);
                 if (r.wants_sample() && members.size() == 3 && kind == 1 && iter == 1) r.sample(id);
